@@ -6,8 +6,9 @@ ID = 'C20'
 LEVEL = 'exploration'
 RULE = ('every labelled digraph with self-loops on n nodes (adjacency matrix = '
         'n*n-bit integer) x node encoding (small ints / ints colliding in a '
+        'set of 8 slots / identity-keyed objects that are == to one another (empty lists, value objects) / '
         'set of 8 slots / identity-keyed objects through the default id() '
-        'transform / tuples / a mix of int, str, tuple, frozenset, float) x how the edges are handed over (one list per node | a set | one shared set object for several nodes plus later calls | two calls per node) x every assignment of encoded values to insertion positions '
+        'transform / tuples / a mix of int, str, tuple, frozenset, float) x how the edges are handed over (one list per node | a set | one shared set object for several nodes plus later calls | two calls per node | one-shot iterators | strict mode ignore_unknown=False with lists, sets, generators, map objects) x every assignment of encoded values to insertion positions '
         '(all n! for n<=4) x sink handling (add_neighbors called for every node '
         '| only for nodes with out-edges) x (no | one edge per node to an '
         'unknown node); a case is non-trivial when the graph has >=1 edge; '
@@ -25,9 +26,11 @@ BOUND = {
 CHUNK = 4
 BLOCK = 4096
 
-ENCODINGS = ('int', 'collide', 'ident', 'tuple', 'mixed', 'selfneq')
+ENCODINGS = ('int', 'collide', 'ident', 'tuple', 'mixed', 'selfneq', 'ident_eq')
 # how the edges are handed to add_neighbors
-BUILDS = ('list', 'set', 'shared', 'steps', 'empty_first', 'unknown_first', 'gen', 'gen_unknown')
+BUILDS = ('list', 'set', 'shared', 'steps', 'empty_first', 'unknown_first', 'gen', 'gen_unknown',
+          # ignore_unknown=False (every neighbour is known): lists, sets, one-shot iterators
+          'list_strict', 'set_strict', 'gen_strict', 'map_strict')
 
 
 def setup_worker():
@@ -45,7 +48,7 @@ def cases(tier, seed):
             for perm in perms:
                 if enc == 'ident' and perm != perms[0]:
                     continue  # object ids are not ours to order
-                if enc in ('tuple', 'mixed', 'selfneq') and perm != perms[0]:
+                if enc in ('tuple', 'mixed', 'selfneq', 'ident_eq') and perm != perms[0]:
                     continue
                 for lazy in (True, False):
                     for unknown in (False, True):
@@ -53,8 +56,10 @@ def cases(tier, seed):
                             yield [n, start, min(total, start + BLOCK), enc,
                                    list(perm), lazy, unknown]
                 # other ways of building the same graph (hashable nodes)
-                if enc in ('int', 'tuple', 'ident') and perm == perms[0]:
+                if enc in ('int', 'tuple', 'ident', 'ident_eq') and perm == perms[0]:
                     for build in BUILDS[1:]:
+                        if enc == 'ident_eq' and build in ('set', 'shared'):
+                            continue          # unhashable nodes cannot be put into a set by the caller
                         for start in range(0, total, BLOCK):
                             yield [n, start, min(total, start + BLOCK), enc,
                                    list(perm), True, False, build]
@@ -125,6 +130,18 @@ class _Expr:
         return self.i % 2          # (and the hashes collide)
 
 
+class _AlwaysEq:
+    """An unhashable value object that compares equal to everything (the
+    default id() keying is made for such nodes)."""
+    __hash__ = None
+
+    def __eq__(self, other):
+        return True
+
+    def __ne__(self, other):
+        return False
+
+
 MIXED = [0, 'a', (1,), frozenset({2}), 3.5]
 
 
@@ -155,6 +172,12 @@ def run_graph(n, bits, enc, perm, lazy, unknown, build='list'):
         vals = [MIXED[perm[i]] for i in range(n)]
         mh = None
         unk = 'unknown' 
+    elif enc == 'ident_eq':
+        # identity-keyed nodes that are == to one another (empty lists, value
+        # objects): equal is not identical
+        vals = [[] if i % 2 == 0 else _AlwaysEq() for i in range(n)]
+        mh = id
+        unk = []
     else:
         vals = [_N(i) for i in range(n)]
         mh = id
@@ -192,6 +215,12 @@ def run_graph(n, bits, enc, perm, lazy, unknown, build='list'):
                 if nbs[i] or build == 'gen_unknown':
                     g.add_neighbors(vals[i], itertools.chain((x for x in nbs[i]),
                                                              iter([unk] if build == 'gen_unknown' else [])))
+        elif build.endswith('_strict'):
+            for i in range(n):
+                if nbs[i]:
+                    nb = {'list_strict': lambda x: list(x), 'set_strict': lambda x: x if mh is id else set(x),
+                          'gen_strict': lambda x: (y for y in x), 'map_strict': lambda x: map(lambda y: y, x)}[build](nbs[i])
+                    g.add_neighbors(vals[i], nb, ignore_unknown=False)
         elif build == 'steps':
             # the edges of a node arrive in two calls
             for rnd in (0, 1):
